@@ -93,6 +93,8 @@ def build(desc: Any, name: str, model: dict[str, Any]) -> Any:
         if desc.total:
             entries.default = model.get(f"{name}.default", 0)
         return entries
+    if isinstance(desc, dsl.ClassOf):
+        raise KeyError("class arguments are bound by the method itself")
     if isinstance(desc, dsl.SeqOf):
         items = []
         while has_keys(f"{name}[{len(items)}]", model):
